@@ -400,6 +400,33 @@ def empty_message_case(ctx, case):
     ctx.evaluations += max(n - 1, 0)
 
 
+def builder_clock_case(ctx, case):
+    """the lock is built at a clock reading with a fraction of a second: the deadline is (whole second of creation) + timeout"""
+    kind, frac, timeout = case
+    seed = ctx.seed
+    sk, pk = keys(seed)
+    sf = fields(seed)
+    tw = tweak(seed)
+    pre = preimages(seed)
+    lock = build_lock(kind, pk, pre['right'], timeout, tw=tw, t0=T0 + frac)
+    D = T0 + timeout
+    n = 0
+    for path, signer, choice in (('refund', 'refund', 'wrong'), ('claim', 'receiver', 'right')):
+        wk = matching_witness(kind, path)
+        for dt in (-1, 0, 1):
+            t = D + dt
+            if t < 0:
+                continue
+            n += 1
+            env.Clock.now = t
+            w = build_witness(wk, sk, signer, pre[choice], sf, tw=tw)
+            want = model(kind, wk, signer, choice, t, t, D)
+            ctx.state(('builder clock', kind, frac, timeout, path, dt))
+            judge(ctx, w, lock, {**sf, 'timestamp': t}, want, {'lock': kind, 'block': 'builder clock fraction', 'path': path},
+                  f'{kind} built at T0+{frac} with timeout {timeout}: {path} at deadline{dt:+d}', t)
+    ctx.evaluations += max(n - 1, 0)
+
+
 def cross_case(ctx, case):
     kind, wk = case
     seed = ctx.seed
@@ -446,6 +473,8 @@ def blocks(tier, seed):
               ('1..64'), nshards=min(len(pl), 128)),
         Block('ptlc_tweak_scalars', tweak_scalars(seed), ptlc_tweaks, 'tweak scalars {1, L-1, clamped, unclamped, 2^254+} x witness kinds x signers', nshards=5),
         Block('sigflags_and_fields', fl, flags_case, 'flag/allowed pairs (every single bit permitted / alone not permitted, mixed patterns) x covered / excluded field changes, both paths', nshards=min(len(fl), 256)),
+        Block('builder_clock_fractions', [(k, fr, to) for k in KINDS for fr in (0.25, 0.5, 0.75, 0.999) for to in (0, 1, 50)], builder_clock_case,
+              'lock kind x creation clock T0 + {.25, .5, .75, .999} x timeout {0, 1, 50} x both paths at deadline-1..+1', nshards=30),
         Block('empty_signed_message', [(k, i) for k in KINDS for i in range(len(EMPTY_SETS))], empty_message_case,
               'lock kind x 5 ways of signing the empty message (no fields, all masked, present but empty) x claim / refund / outsider / too early', nshards=30),
         Block('cross_pairings', cr, cross_case, 'all witness kinds x all lock kinds x signers x preimage choices', nshards=len(cr)),
